@@ -12,7 +12,7 @@ use crate::{
         definitions::{InMemoryLmsPublicKey, LmsPublicKey},
         signing::{InMemoryLmsSignature, LmsSignature},
     },
-    util::helper::read_and_advance,
+    util::helper::try_read_and_advance,
     HashChain,
 };
 
@@ -145,8 +145,15 @@ impl<'a, H: HashChain> InMemoryHssSignature<'a, H> {
     pub fn new(data: &'a [u8]) -> Option<Self> {
         let mut index = 0;
 
-        let level =
-            u32::from_be_bytes(read_and_advance(data, 4, &mut index).try_into().unwrap()) as usize;
+        let level = u32::from_be_bytes(
+            try_read_and_advance(data, 4, &mut index)?
+                .try_into()
+                .unwrap(),
+        ) as usize;
+
+        if level >= MAX_ALLOWED_HSS_LEVELS {
+            return None;
+        }
 
         let mut signed_public_keys = ArrayVec::new();
 
